@@ -40,6 +40,8 @@ func main() {
 		{"Math.lean", extractMath},
 		{"Grammar.lean", extractGrammar},
 		{"Balance.lean", extractBalance},
+		{"Conc.lean", extractConc},
+		{"Listener.lean", extractListener},
 	}
 	for _, g := range gens {
 		s, err := g.fn(*repo)
